@@ -214,7 +214,7 @@ var echoIDPool = []sharing.ID{1, 2, 3, 4, 5, 6, 9, 1 << 20, 1 << 63}
 
 func TestEchoBroadcast(t *testing.T) {
 	const test = "EchoBroadcast"
-	vlib.Check(t, 1200, func(t *rapid.T) {
+	vlib.Check(t, 1600, func(t *rapid.T) {
 		n := rapid.SampledFrom([]int{3, 3, 4, 4, 5, 5, 5}).Draw(t, "n")
 		idx := rapid.SliceOfNDistinct(rapid.IntRange(0, len(echoIDPool)-1), n, n, rapid.ID[int]).Draw(t, "ids")
 		var ids []sharing.ID
